@@ -213,6 +213,58 @@ Proof.
   - intros x xo Hx Hop Hh. rewrite Et in Hx. rewrite Eh in Hh. rewrite Et. apply (HtS x xo Hx Hop Hh).
 Qed.
 
+(** ---- TM3 through the first pass: the invariant [LI3] = [LI] /\ [TM3] of the object boundaries of parseObjectList ---- *)
+Definition LI3 (X : N -> Prop) (s : pstate) (g : ghost) : Prop := LI X s g /\ TM3 (p_tree s) g.
+
+Lemma rowis_np (o : Obj) : rowis aml_pOpIntNamePath o -> o_infoIndex o = npIdx.
+Proof. unfold rowis. intros H. assert (E : opcodeTableIndex aml_pOpIntNamePath true = Some npIdx) by (vm_compute; reflexivity). congruence. Qed.
+Lemma rowis_bp (o : Obj) : rowis aml_pOpBytePrefix o -> o_infoIndex o = bpIdx.
+Proof. unfold rowis. intros H. assert (E : opcodeTableIndex aml_pOpBytePrefix true = Some bpIdx) by (vm_compute; reflexivity). congruence. Qed.
+
+Lemma LI3_next_holds X s g top rest s' g' :
+  FI s g -> LI3 X s g -> p_scopeStack s = top :: rest -> FI s' g' -> gext g g' ->
+  Fw NoP (eq top) s g s' g' -> SSBx s s' -> p_handle s' = p_handle s ->
+  (exists xs, newobjs g s' xs /\ forall x, xs = Some x -> ~ glive g x /\ xdesc s g s' g' top x) ->
+  LI3 X s' g'.
+Proof.
+  intros H (HL & HTM) Est H' G F Hss Hh Hnx. split; [exact (LI_next_holds X s g top rest s' g' H HL Est H' G F Hss Hh Hnx)|].
+  unfold TM3.
+  destruct HL as (_ & _ & _ & Hssb & _). destruct F as [K Fk0]. destruct Hnx as (xs & Hnew & Hx).
+  pose proof (fi_R _ _ H) as HR. pose proof (R_gwf _ _ HR) as Hwf.
+  assert (Htop_sb : is_sb s top) by (rewrite Est in Hssb; inversion Hssb; auto).
+  assert (Hkeepk : forall y yo, glive g y -> tget (p_tree s) y = Some yo -> o_opcode yo <> aml_pOpIntScopeBlock -> kids g' y = kids g y).
+  { intros y yo Hy Hyo Hne. destruct (Fk0 y Hy (fun F => F)) as (_ & Hex). apply Hex. intros <-.
+    destruct Htop_sb as (o & Ho & E). assert (o = yo) by congruence. subst. contradiction. }
+  intros m mo' Hm' Hop'. assert (Hlm' : o_opcode mo' <> opFreed) by (rewrite Hop'; discriminate).
+  destruct (glive_dec g m) as [Hlm|Hnm].
+  - destruct (keepw_back NoP s g s' m mo' H K Hlm Hm') as (mo & Hm & (E1 & _) & _).
+    assert (Hop : o_opcode mo = aml_pOpMethod) by congruence.
+    destruct (HTM m mo Hm Hop) as (a0 & a1 & rest0 & a0o & a1o & v & K1 & K2 & K3 & K4 & K5 & K6 & K7 & K8 & K9).
+    assert (Hl0 : glive g a0) by (apply (Hwf m a0); rewrite K1; left; reflexivity).
+    assert (Hl1 : glive g a1) by (apply (Hwf m a1); rewrite K1; right; left; reflexivity).
+    destruct (keepw_sameobj NoP s g s' a0 a0o K Hl0 K2) as (a0o' & K2' & (S1 & S2 & _) & _).
+    destruct (keepw_sameobj NoP s g s' a1 a1o K Hl1 K6) as (a1o' & K6' & (T1 & T2 & _) & _ & V1).
+    exists a0, a1, rest0, a0o', a1o', v. split; [rewrite (Hkeepk m mo Hlm Hm); [exact K1|rewrite Hop; discriminate]|].
+    split; [exact K2'|]. split; [congruence|]. split; [congruence|].
+    split; [rewrite (Hkeepk a0 a0o Hl0 K2); [exact K5|rewrite K3; discriminate]|].
+    split; [exact K6'|]. split; [congruence|]. split; [congruence|]. rewrite V1; [exact K9|intros []].
+  - destruct (Hnew m mo' Hm' Hlm' Hnm) as [E|(Hb & _)]; [|exfalso; apply Hb; left; exact Hop'].
+    destruct (Hx m E) as (_ & xo & Hxo & _ & Hrow & _ & _ & Hshape). assert (xo = mo') by congruence. subst xo.
+    destruct method_row as (Hmi & Hmrow & _). destruct method_shape as (Hsim & Hot).
+    unfold rowis in Hrow. rewrite Hop', Hmi in Hrow. injection Hrow as Hrow.
+    destruct (Hshape (or_introl Hop') aml_pOpMethod 33 methodAF) as (objs & Hk & Hf2 & _); [rewrite <- Hrow; exact Hmrow|exact Hsim|vm_compute; reflexivity|].
+    rewrite Hot in Hf2. destruct (Forall2_inv2 _ _ _ _ _ Hf2) as (a0 & a1 & l1' & Eobjs & A0 & A1 & _). rewrite Eobjs in Hk.
+    destruct A0 as (a0o & Ha0 & N0 & _). destruct (N0 eq_refl) as (Kn0 & Eop0 & Er0 & _).
+    destruct A1 as (a1o & Ha1 & _ & B1 & _). destruct (B1 eq_refl) as (_ & Eop1 & Er1 & v & Ev1).
+    exists a0, a1, l1', a0o, a1o, v. split; [exact Hk|]. split; [exact Ha0|]. split; [exact Eop0|]. split; [apply rowis_np; exact Er0|].
+    split; [exact Kn0|]. split; [exact Ha1|]. split; [exact Eop1|]. split; [apply rowis_bp; exact Er1|exact Ev1].
+Qed.
+
+Lemma LI3_stable_holds X s s' g : LI3 X s g -> p_tree s' = p_tree s -> p_handle s' = p_handle s ->
+  (forall y, In y (p_scopeStack s') -> In y (p_scopeStack s)) -> LI3 X s' g.
+Proof. intros (HL & HTM) Et Eh Hst. split; [eapply LI_stable_holds; eauto|rewrite Et; exact HTM]. Qed.
+
+
 (** ---- the first pass from the initial state of a table ---- *)
 Theorem first_pass_establishes : forall tree g earlier handle data fuel,
   R tree g -> info_valid tree -> glive g 0 -> groot g 0 ->
@@ -259,103 +311,6 @@ Proof.
   split; [exact K6|]. split; [apply (N2 n no tbl sl K3 KX K4 K6)|]. split; [exact K8|exact K9].
 Qed.
 
-Theorem parseAML_body_never_panics_if_names : forall tree g earlier handle data fuel,
-  R tree g -> info_valid tree -> glive g 0 -> groot g 0 ->
-  (exists o, tget tree 0 = Some o /\ o_opcode o = aml_pOpIntScopeBlock) ->
-  TM2 tree g -> typed tree -> pool_ok earlier tree ->
-  (forall i o, tget tree i = Some o -> o_tableHandle o <> handle) ->
-  image_small data ->
-  (let L := N.of_nat (length (t_pool tree)) + 4 * N.of_nat (length data) + 2 in
-   L + L * (8 * N.of_nat (length data) + 3) + 4 <= InvalidIndex) ->
-  (forall s1, first_pass fuel (init_state tree earlier handle data) = Ok (ROk, s1) -> NAMEOK (glive g) s1) ->
-  match parseAML_body fuel (init_state tree earlier handle data) with
-  | Ok (_, s') => exists g', R (p_tree s') g' /\ info_valid (p_tree s') /\ pool_ok (p_tables s') (p_tree s')
-  | Panic => False
-  | OutOfFuel => True
-  end.
-Proof.
-  intros tree g earlier handle data fuel HR Hi H0 Hr0 Hsb HTM Htyp Hpool Hfresh Him Hcap Hnames. cbv zeta in Hcap.
-  assert (Hcap0 : N.of_nat (length (t_pool tree)) + 4 * N.of_nat (length data) + 4 <= InvalidIndex) by nia.
-  pose proof (first_pass_establishes tree g earlier handle data fuel HR Hi H0 Hr0 Hsb HTM Hfresh Him Hcap0) as W1.
-  destruct (init_FI tree g earlier handle data HR Hi H0 Him Hcap0) as (HFI & Hroom & _).
-  set (s0 := with_scopeStack (init_state tree earlier handle data) [0]) in *.
-  assert (Hinv0 : Inv (earlier ++ [data]) s0).
-  { destruct Him as (Hb & Hl). assert (Him' : image_ok data) by (split; [exact Hb|unfold two32 in *; lia]).
-    destruct (init_state_Inv tree earlier handle data Him' Hpool) as [A1 A2 A3 A4 A5]. constructor; auto. }
-  pose proof (list_spec2 (LI (glive g)) (LI_next_holds (glive g)) (LI_stable_holds (glive g)) fuel s0 g HFI Hroom) as W2.
-  rewrite parseAML_body_rest2. unfold first_pass in W1, Hnames. unfold bindM, scopeEnter in *.
-  change (with_scopeStack (init_state tree earlier handle data) (0 :: p_scopeStack (init_state tree earlier handle data))) with s0 in *.
-  destruct (parseObjectList fuel s0) as [[r1 s1]| |] eqn:E1; auto.
-  destruct W1 as (g1 & A1 & A2 & A3 & Hres & HLI).
-  destruct Hres as [ -> | -> ]; cbn [pres_eqb].
-  2:{ unfold ret. exists g1. destruct (hoare_parseObjectList (earlier ++ [data]) fuel s0 _ s1 Hinv0 E1) as ([B1 B2 B3 B4 B5] & _).
-      split; [exact A1|]. split; [exact A2|]. rewrite B1. exact B5. }
-  destruct (HLI eq_refl) as (HL1 & Hst1).
-  destruct (hoare_parseObjectList (earlier ++ [data]) fuel s0 _ s1 Hinv0 E1) as (I1 & _).
-  assert (Ht1 : typed (p_tree s1)) by (apply (parseObjectList_tyk fuel s0 _ s1 E1); exact Htyp).
-  assert (HLI0 : LI (glive g) s0 g).
-  { split; [exact H0|]. split; [exact Hr0|]. split; [exact Hsb|]. split; [constructor; [exact Hsb|constructor]|]. split; [exact HTM|]. split.
-    - intros x o _ Ho Hf. exfalso. change (p_tree s0) with tree in Ho. unfold isflag in Hf. change (p_tree s0) with tree in Hf. rewrite Ho in Hf.
-      destruct (opInfo (o_infoIndex o)) as [[[op fl] af]|]; [|discriminate]. apply andb_prop in Hf. destruct Hf as (_ & Hf).
-      apply N.eqb_eq in Hf. apply (Hfresh x o Ho). exact Hf.
-    - split; [|auto]. intros x xo Hx _ Hh. exfalso. apply (Hfresh x xo Hx). exact Hh. }
-  assert (El0 : r_len (p_r s0) = N.of_nat (length data)).
-  { unfold s0, init_state. cbn [p_r with_scopeStack with_r]. rewrite (proj2 (setPkgEnd_off _ _)). rewrite init_reader_val. reflexivity. }
-  specialize (W2 HLI0). unfold wp in W2. rewrite E1 in W2. destruct W2 as (g1' & F1 & _ & HPhi & Hlen & _ & _).
-  apply (rest2_never_panics (earlier ++ [data]) fuel s1 g1 A1 A2 A3 Hst1 I1); [apply (SH_of_LI (glive g)); [exact HL1|apply Hnames; reflexivity]|exact Ht1|].
-  assert (Hlp : lp s1 <= N.of_nat (length (t_pool tree)) + 4 * N.of_nat (length data) + 2).
-  { unfold Phi, lp, rem in HPhi. pose proof (fi_rok _ _ F1) as (_ & _ & O1). change (p_tree s0) with tree in HPhi.
-    unfold lp. rewrite Hlen, El0 in *. lia. }
-  assert (El1 : r_len (p_r s1) = N.of_nat (length data)).
-  { rewrite Hlen. exact El0. }
-  rewrite El1. nia.
-Qed.
-
-(** ---- the whole of ParseAML: no hypothesis about the run is left ---- *)
-Theorem parseAML_body_never_panics : forall tree g earlier handle data fuel,
-  R tree g -> info_valid tree -> glive g 0 -> groot g 0 ->
-  (exists o, tget tree 0 = Some o /\ o_opcode o = aml_pOpIntScopeBlock) ->
-  TM2 tree g -> typed tree -> pool_ok earlier tree ->
-  (forall i o, tget tree i = Some o -> o_tableHandle o <> handle) ->
-  image_small data ->
-  (let L := N.of_nat (length (t_pool tree)) + 4 * N.of_nat (length data) + 2 in
-   L + L * (8 * N.of_nat (length data) + 3) + 4 <= InvalidIndex) ->
-  match parseAML_body fuel (init_state tree earlier handle data) with
-  | Ok (_, s') => exists g', R (p_tree s') g' /\ info_valid (p_tree s') /\ pool_ok (p_tables s') (p_tree s')
-  | Panic => False
-  | OutOfFuel => True
-  end.
-Proof.
-  intros tree g earlier handle data fuel HR Hi H0 Hr0 Hsb HTM Htyp Hpool Hfresh Him Hcap.
-  assert (HGP : GPt (earlier ++ [data]) (glive g) tree).
-  { intros n no tbl sl Hn HX Hop _. exfalso. apply HX. apply (R_live_glive _ _ HR). exists no. split; [exact Hn|rewrite Hop; discriminate]. }
-  apply (parseAML_body_never_panics_if_names tree g earlier handle data fuel HR Hi H0 Hr0 Hsb HTM Htyp Hpool Hfresh Him Hcap).
-  intros s1 E1. cbv zeta in Hcap.
-  assert (Hcap0 : N.of_nat (length (t_pool tree)) + 4 * N.of_nat (length data) + 4 <= InvalidIndex) by nia.
-  destruct (init_FI tree g earlier handle data HR Hi H0 Him Hcap0) as (HFI & _).
-  assert (Hw : W (earlier ++ [data]) data (init_state tree earlier handle data)).
-  { split; [reflexivity|]. split; [|exact (fi_rok _ _ HFI)].
-    unfold init_state. cbn [p_r with_r]. rewrite setPkgEnd_data, init_reader_val. reflexivity. }
-  destruct (first_pass_good (earlier ++ [data]) data (glive g) (last_table earlier data) fuel _ _ _ Hw HGP E1) as (Ht1 & Hg1).
-  intros n no tbl sl Hn HX Hop Hv s0 bytes Hs0 Hb. apply (Hg1 n no tbl sl Hn HX Hop Hv s0 bytes); [rewrite Hs0; exact Ht1|exact Hb].
-Qed.
-
-(** ParseAML itself (the fuel the model passes is [parse_fuel]) *)
-Theorem parseAML_never_panics : forall tree g earlier handle data,
-  R tree g -> info_valid tree -> glive g 0 -> groot g 0 ->
-  (exists o, tget tree 0 = Some o /\ o_opcode o = aml_pOpIntScopeBlock) ->
-  TM2 tree g -> typed tree -> pool_ok earlier tree ->
-  (forall i o, tget tree i = Some o -> o_tableHandle o <> handle) ->
-  image_small data ->
-  (let L := N.of_nat (length (t_pool tree)) + 4 * N.of_nat (length data) + 2 in
-   L + L * (8 * N.of_nat (length data) + 3) + 4 <= InvalidIndex) ->
-  match parseAML tree earlier handle data with
-  | Ok (_, s') => exists g', R (p_tree s') g' /\ info_valid (p_tree s') /\ pool_ok (p_tables s') (p_tree s')
-  | Panic => False
-  | OutOfFuel => True
-  end.
-Proof. intros. unfold parseAML. apply (parseAML_body_never_panics tree g earlier handle data); assumption. Qed.
-
 (** ---- the same with a postcondition about the state a successful ParseAML returns (see ParserTotalChain.rest_post) ---- *)
 Section Post1.
 Variable K : T -> ghost -> Prop.
@@ -365,6 +320,7 @@ Hypothesis K_walk : forall f4 pf s g s1 g1, WI s g -> parseDeferredBlocks f4 pf 
   K (p_tree s) g -> K (p_tree s1) g1.
 Variable KI : pstate -> ghost -> Prop.
 Hypothesis KI_KS : forall s g, KI s g -> KS s g.
+Hypothesis KI_TM : forall s g, KI s g -> TM NoX s g.
 Hypothesis KI_loop : forall wf fuel s g, MI KI NoX s g ->
   wp True (resolve_loop fuel wf) s (fun _ s' => exists g', MI KI NoX s' g').
 Hypothesis K_start : forall s g, MI KI NoX s g -> K (p_tree s) g.
@@ -439,7 +395,7 @@ Proof.
   assert (Ht1 : typed (p_tree s1)) by (apply (parseObjectList_tyk fuel s0 _ s1 E1); exact Htyp).
   assert (El0 : r_len (p_r s0) = N.of_nat (length data)).
   { unfold s0, init_state. cbn [p_r with_scopeStack with_r]. rewrite (proj2 (setPkgEnd_off _ _)). rewrite init_reader_val. reflexivity. }
-  apply (rest2_post (earlier ++ [data]) K K_move K_upd K_walk KI KI_KS KI_loop K_start J J_SH J_conn J_KI fuel s1 g1 A1 A2 A3 Hst1 I1);
+  apply (rest2_post (earlier ++ [data]) K K_move K_upd K_walk KI KI_KS KI_TM KI_loop K_start J J_SH J_conn J_KI fuel s1 g1 A1 A2 A3 Hst1 I1);
     [apply (J_start (glive g)); [exact HL1|apply Hnames; reflexivity]|exact Ht1|].
   assert (Hlp : lp s1 <= N.of_nat (length (t_pool tree)) + 4 * N.of_nat (length data) + 2).
   { unfold Phi, lp, rem in HPhi. pose proof A3 as (_ & _ & O1). change (p_tree s0) with tree in HPhi.
@@ -474,28 +430,83 @@ Proof.
   destruct (ws_keep _ _ _ _ S1 0 o Hl Ho) as (o' & Ho' & (E1 & _) & _). exists o'. split; [exact Ho'|congruence].
 Qed.
 
-Theorem parseAML_body_post_root : forall tree g earlier handle data fuel,
+(** ---- the whole of ParseAML: no hypothesis about the run is left; a successful run returns a pool whose root is again a live
+     parentless ScopeBlock in slot 0, with the []byte typing and the Method typing [TM3] ---- *)
+Definition K3 : T -> ghost -> Prop := fun t g => KR t g /\ TM3 t g.
+
+Lemma K3_move : Kmove K3.
+Proof.
+  intros s g par x target pre post t2 HT (H1 & H2) Hk Hl Hne Htg Hp g2 HT2 A B C Hpf.
+  split; [apply (KR_move s g par x target pre post t2 HT H1 Hk Hl Hne Htg Hp HT2 A B C Hpf)
+         |apply (TM3_move s g par x target pre post t2 HT H2 Hk Hl Hne Htg Hp HT2 A B C Hpf)].
+Qed.
+Lemma K3_upd : Kupd K3.
+Proof.
+  intros t g p o f HR (H1 & H2) Ho Hop A B. split; [apply (KR_upd t g p o f HR H1 Ho Hop A B)|apply (TM3_upd t g p o f HR H2 Ho Hop A B)].
+Qed.
+
+Theorem parseAML_body_post3 : forall tree g earlier handle data fuel,
   R tree g -> info_valid tree -> glive g 0 -> groot g 0 ->
   (exists o, tget tree 0 = Some o /\ o_opcode o = aml_pOpIntScopeBlock) ->
-  TM2 tree g -> typed tree -> pool_ok earlier tree ->
+  TM3 tree g -> typed tree -> pool_ok earlier tree ->
   (forall i o, tget tree i = Some o -> o_tableHandle o <> handle) ->
   image_small data ->
   (let L := N.of_nat (length (t_pool tree)) + 4 * N.of_nat (length data) + 2 in
    L + L * (8 * N.of_nat (length data) + 3) + 4 <= InvalidIndex) ->
   match parseAML_body fuel (init_state tree earlier handle data) with
-  | Ok (b, s') => tpost KR b s'
+  | Ok (b, s') => tpost K3 b s'
   | Panic => False
   | OutOfFuel => True
   end.
 Proof.
   intros tree g earlier handle data fuel HR Hi H0 Hr0 Hsb HTM.
-  apply (parseAML_body_post KR KR_move KR_upd KR_walk KS (fun s g H => H)
-           (resolve_loop_MI KS KS_counters KS_move KS_free KS_reloc)
-           (fun s g HM => mi_sb0 _ _ _ _ HM) SH (fun s g H => H) (fun fuel => proj1 (conn_all2 SH SH_setname SH_attach fuel))
-           (fun s g a b c HS => KS_counters s g a b c (conj (proj1 (proj2 (proj2 (proj2 (proj2 HS))))) (proj2 (proj2 (proj2 (proj2 (proj2 HS)))))))
-           LI (fun _ _ => True) (fun X s g H => H) (fun X s g H _ => H) LI_next_holds LI_stable_holds
-           (fun X s g HL HN => SH_of_LI X s g HL HN) tree g earlier handle data fuel HR Hi H0 Hr0 Hsb HTM I).
+  apply (parseAML_body_post K3 K3_move K3_upd
+           (fun f4 pf s g s1 g1 H E H1 S1 T1 HK => conj (KR_walk f4 pf s g s1 g1 H E H1 S1 T1 (proj1 HK)) (TM_TM3 s1 g1 T1))
+           KS3 (fun s g H => proj1 H) (fun s g H => TM3_TM s g (proj2 H)) KS3_loop
+           (fun s g HM => conj (mi_sb0 _ _ _ _ HM) (proj2 (mi_K _ _ _ _ HM)))
+           SH3 (fun s g H => proj1 H) SH3_conn
+           (fun s g a b c HS => conj (KS_counters s g a b c (conj (proj1 (proj2 (proj2 (proj2 (proj2 (proj1 HS)))))) (proj2 (proj2 (proj2 (proj2 (proj2 (proj1 HS)))))))) (proj2 HS))
+           LI3 TM3 (fun X s g H => proj1 H) (fun X s g H HP => conj H HP) LI3_next_holds LI3_stable_holds
+           (fun X s g HL HN => conj (SH_of_LI X s g (proj1 HL) HN) (proj2 HL))
+           tree g earlier handle data fuel HR Hi H0 Hr0 Hsb (TM3_TM2 _ _ HTM) HTM).
 Qed.
+
+Theorem parseAML_body_never_panics : forall tree g earlier handle data fuel,
+  R tree g -> info_valid tree -> glive g 0 -> groot g 0 ->
+  (exists o, tget tree 0 = Some o /\ o_opcode o = aml_pOpIntScopeBlock) ->
+  TM3 tree g -> typed tree -> pool_ok earlier tree ->
+  (forall i o, tget tree i = Some o -> o_tableHandle o <> handle) ->
+  image_small data ->
+  (let L := N.of_nat (length (t_pool tree)) + 4 * N.of_nat (length data) + 2 in
+   L + L * (8 * N.of_nat (length data) + 3) + 4 <= InvalidIndex) ->
+  match parseAML_body fuel (init_state tree earlier handle data) with
+  | Ok (_, s') => exists g', R (p_tree s') g' /\ info_valid (p_tree s') /\ pool_ok (p_tables s') (p_tree s')
+  | Panic => False
+  | OutOfFuel => True
+  end.
+Proof.
+  intros tree g earlier handle data fuel HR Hi H0 Hr0 Hsb HTM Htyp Hpool Hfresh Him Hcap.
+  pose proof (parseAML_body_post3 tree g earlier handle data fuel HR Hi H0 Hr0 Hsb HTM Htyp Hpool Hfresh Him Hcap) as W.
+  destruct (parseAML_body fuel (init_state tree earlier handle data)) as [[b s']| |]; auto.
+  destruct W as (g' & A & B & C & _). exists g'. auto.
+Qed.
+
+(** ParseAML itself (the fuel the model passes is [parse_fuel]) *)
+Theorem parseAML_never_panics : forall tree g earlier handle data,
+  R tree g -> info_valid tree -> glive g 0 -> groot g 0 ->
+  (exists o, tget tree 0 = Some o /\ o_opcode o = aml_pOpIntScopeBlock) ->
+  TM3 tree g -> typed tree -> pool_ok earlier tree ->
+  (forall i o, tget tree i = Some o -> o_tableHandle o <> handle) ->
+  image_small data ->
+  (let L := N.of_nat (length (t_pool tree)) + 4 * N.of_nat (length data) + 2 in
+   L + L * (8 * N.of_nat (length data) + 3) + 4 <= InvalidIndex) ->
+  match parseAML tree earlier handle data with
+  | Ok (_, s') => exists g', R (p_tree s') g' /\ info_valid (p_tree s') /\ pool_ok (p_tables s') (p_tree s')
+  | Panic => False
+  | OutOfFuel => True
+  end.
+Proof. intros. unfold parseAML. apply (parseAML_body_never_panics tree g earlier handle data); assumption. Qed.
+
 
 (** ---- the hypotheses are satisfiable: a pool that holds just the root scope, the table While (Zero) { } ---- *)
 Definition ex1_ops : list op := [ OpNewNamed opScopeBlock 0 (0x5c, 0, 0, 0) ].
@@ -519,7 +530,7 @@ Lemma parseAML_hyps_example :
   exists (tree : T) (g : ghost) (data : list N),
     R tree g /\ info_valid tree /\ glive g 0 /\ groot g 0 /\
     (exists o, tget tree 0 = Some o /\ o_opcode o = aml_pOpIntScopeBlock) /\
-    TM2 tree g /\ typed tree /\ pool_ok [] tree /\
+    TM3 tree g /\ typed tree /\ pool_ok [] tree /\
     (forall i o, tget tree i = Some o -> o_tableHandle o <> 1) /\
     image_small data /\
     (let L := N.of_nat (length (t_pool tree)) + 4 * N.of_nat (length data) + 2 in
@@ -534,7 +545,7 @@ Proof.
   split; [split; [vm_compute; reflexivity|vm_compute; intuition discriminate]|].
   split; [apply groot_chk; vm_compute; reflexivity|].
   split; [eexists; split; vm_compute; reflexivity|].
-  split; [unfold TM2; apply (Hall (fun m mo => o_opcode mo = aml_pOpMethod -> mtyped2 ex1_tree ex1_ghost m)); intros o Ho Hop; vm_compute in Ho; inversion Ho; subst o; vm_compute in Hop; discriminate|].
+  split; [unfold TM3; apply (Hall (fun m mo => o_opcode mo = aml_pOpMethod -> mtyped3 ex1_tree ex1_ghost m)); intros o Ho Hop; vm_compute in Ho; inversion Ho; subst o; vm_compute in Hop; discriminate|].
   split; [unfold typed; apply (Hall (fun i o => o_opcode o <> opFreed -> o_opcode o = aml_pOpIntNamePathOrMethodCall -> exists tbl sl, o_value o = Some (VBytes tbl sl)));
           intros o Ho _ Hop; vm_compute in Ho; inversion Ho; subst o; vm_compute in Hop; discriminate|].
   split; [unfold pool_ok; rewrite Forall_forall; intros o Hin; destruct (In_nth_error _ _ Hin) as (n & Hn);
